@@ -190,6 +190,20 @@ func (c *Ctx) basicLatinModel() (blProblems, *ast.FuncDecl) {
 			}
 			seg := p[i+1 : end]
 			lowEnd := rangesP + "[" + iv + "]"
+			// what decides whether a pair contributes: the general path accepts every rune between the two ends, so the
+			// Basic Latin part of a pair is non-empty exactly when its low end is below 128. A test of anything else about
+			// the pair (its high end, its width) before the rune loop drops or adds Basic Latin runes of some pairs.
+			for _, e2 := range seg {
+				if e2.Kind == "loop" {
+					break
+				}
+				if e2.Kind != "+" || !strings.Contains(e2.Text, rangesP+"[") {
+					continue
+				}
+				if e2.Text != lowEnd+"<128" && e2.Text != lowEnd+">=128" {
+					add("range-bounds-as-general-path", "a range pair is handled only under `"+e2.Text+"`: the Basic Latin part of a pair is non-empty exactly when its low end "+lowEnd+" is below 128 (a pair that straddles U+0080 must still mark its runes below 128)")
+				}
+			}
 			if !seg.holds(lowEnd + "<128") {
 				// either the pair is skipped (nothing stored), or every store sits in a rune loop whose own condition keeps
 				// the rune below 128 (the test of the low end is then implied by the first evaluation of that condition)
